@@ -64,7 +64,12 @@ RULE = ('read: fixed table of every shape the property names (length prefixes 10
         'hashes, urn:btmh: multihash and its malformed forms, sha1, ed2k, tree:tiger, md5, aich, kzhash, bitprint, crc32, uuid) in 14 '
         'spellings of the prefix (case, percent-encoding, padding) alone, in all 100 ordered pairs of 10 core topics, 64 triples, 3..100 '
         'v2 topics with/without a v1 topic, xt.N, x_xt, topics in other parameters, 36 other parameters (so, x.pe, select-only, mt, '
-        'fl, ...) + the numeric-looking strings as xl and as URL port + grammar (2 % with ~100..2500 fields) + '
+        'fl, ...) + the numeric-looking strings as xl and as URL port + authority grid: userinfo (absent, user@, user:pw@, @, a@b@ '
+        '[thorough + :@, user:p:w@, %40@, "us er@"]) x host (absent, name, IPv4, [IPv6], [IPv6%zone], unbalanced / bad brackets, IDN, '
+        'empty label, space, 300 characters [thorough: 24 hosts]) x port (absent, ":", 80, 0, 65535, 65536, 99999, -1, x, 6881x, " 80", '
+        'Arabic-Indic, superscript, 80:81, 20 and 4301 digits [thorough: 30 ports]) as authority of the magnet URI (8 placements of '
+        'path and query, no query, upper-case scheme, scheme-less) and of the URL in tr / ws / xs / as + grammar (2 % with ~100..2500 '
+        'fields) + '
         'mutations + random. cost: 25 size families + repeated-unit families (unit x position x entry point: 63 units x 18 magnet '
         'positions, 26 byte units x 3 positions x 19 torrent fields, 27 shapes of the encoding: digit runs in prefixes and '
         'integers, nesting, long keys, many small items), sizes n, 4n, 16n, process CPU time in a forked child under RLIMIT_CPU. '
@@ -426,6 +431,11 @@ def _magnet_oracles(uri):
         return o
     o['urlparse'] = [info.scheme, info.query]
     o['stripped'] = uri.strip()
+    try:                                   # lazily validated attribute (the unchanged from_string does not read it)
+        info.port
+        o['portRaises'] = False
+    except ValueError:
+        o['portRaises'] = True
     qs = urllib.parse.parse_qs(info.query)
     # unquote() of every name / value that holds a '%' (after '+' -> ' '), for the modelled parse_qs
     pct = {}
@@ -727,6 +737,8 @@ def evaluate_magnet(ctx, drv, cases):
         if not m['stripAgree'] or m['stripSteps'] > len(c['uri']) + 2:
             ctx.machinery_error('the Lean model of str.strip() disagrees with CPython on this string, or its step count exceeds '
                                 'len+2 (Model/PyStrip.lean is wrong / contradicts C08_strip_steps)', case)
+        if m.get('portReadKind') == 'internal:ValueError':
+            ctx.dist['magnet: a read of .port after the scheme test would raise (C08_magnet_port_read_raises)'] += 1
         if not m['intAgree']:
             ctx.machinery_error('the Lean model of int() on ASCII strings disagrees with CPython on an xl value of this URI '
                                 '(Model/PyInt.lean is wrong)', case)
@@ -1392,6 +1404,7 @@ def build_magnet_cases(ctx):
     cases += ugen.magnet_fixed()
     cases += ugen.magnet_sizes(thorough=ctx.thorough)
     cases += ugen.magnet_padding()
+    cases += ugen.magnet_authority(full=ctx.thorough)
     cases += ugen.magnet_topics()
     cases += ugen.magnet_numeric()
     cases += ugen.magnet_random(r, ctx.n(8000, 300000))
@@ -1423,8 +1436,11 @@ def run(ctx, drv):
         '4300-digit limit) and compared with CPython on every xl value; for strings with non-ASCII characters (Unicode digits and '
         'spaces) int() stays an oracle',
         'after a correspondence break search() first sweeps the field of the break (all hostile values, number ladder, numeric-looking '
-        'strings, in four layouts and in the breaking input) resp. the parameters of the breaking URI (alone, pairs, dropped, doubled, '
-        'values of their class), then a random budget',
+        'strings, in four layouts and in the breaking input) resp. the authority grid (6480 authorities) in the place of the authority '
+        'of the breaking URI and of its URL parameters and the parameters of the breaking URI (alone, pairs, dropped, doubled, values of '
+        'their class), then a random budget',
+        'urlparse() is an oracle for the eager fields (scheme, query); the lazily validated attribute .port is a separate oracle value '
+        '(does reading it raise ValueError) that the unchanged from_string never reads (Model/UrlAttrs.lean)',
         'time and memory of CPython are measured (CPU seconds, peak RSS, peak address space in a forked child), not proved; '
         'claimed bound: %g s/byte + %g s, RSS %d B/byte + %d MiB' % (TIME_C, TIME_D, RSS_C, RSS_D >> 20),
         'byte strings longer than MAX_TORRENT_FILE_SIZE are outside the property ("up to the read limit"): '
@@ -1545,6 +1561,13 @@ def search(ctx, drv):
         if b['op'] == 'c08.magnet' and b['case'].get('uri') and not b['case']['uri'].endswith('…') and b['case']['uri'] not in uris:
             uris.append(b['case']['uri'])
     for uri in sorted(uris, key=len)[:6]:
+        # the authority grid in the place of the authority of the URI / of its URL parameters, when the break involves one
+        if '//' in urllib.parse.unquote(uri):
+            ac = ugen.authority_sweep(uri)
+            ctx.dist['search:authority-sweep'] += len(ac)
+            evaluate_magnet(ctx, drv, ac)
+            if ctx.violations:
+                return
         mc = ugen.magnet_sweep(uri)
         ctx.dist['search:magnet-sweep'] += len(mc)
         evaluate_magnet(ctx, drv, mc)
